@@ -400,6 +400,9 @@ func scriptedHandler(name string, reg *Registry, closeOf func(w http.ResponseWri
 			reply(200, a.Token)
 		case b == "close":
 			closeConn()
+		case b == "okclose": // answers 200 and closes the connection right behind the answer (HTTP/2: GOAWAY after it)
+			w.Header().Set("Connection", "close")
+			reply(200, a.Token)
 		case b == "hang":
 			select {
 			case <-rel:
@@ -453,7 +456,7 @@ func scriptedHandler(name string, reg *Registry, closeOf func(w http.ResponseWri
 }
 
 // HTTPUpstream is a scripted HTTP/1.1 server. The request header X-Script holds comma separated behaviours, one
-// per attempt (the last one repeats): ok | sNNN | close | hang | slowN | gate | gs503 | gateclose | gatereset | big<N>
+// per attempt (the last one repeats): ok | sNNN | close | okclose | hang | slowN | gate | gs503 | gateclose | gatereset | big<N>
 type HTTPUpstream struct {
 	Name  string
 	Addr  string
